@@ -241,6 +241,14 @@ def ite(c, a, b):
         b = b.args[2]
     if a is b:
         return a
+    # integer min / max written as a comparison-select (total order: exact for every input)
+    if c.op[:3] in ('lt:', 'le:') and len(c.args) == 2:
+        x, y = c.args
+        ty = c.op[3:]
+        if (a is x and b is y):
+            return iop('min', ty, x, y)
+        if (a is y and b is x):
+            return iop('max', ty, x, y)
     # lift masks: ite(c, m32(x), m32(y)) = m32(ite(c,x,y))
     if a.op == b.op and a.op in ('m32', 'm64', 'm8', 'm16'):
         return mk(a.op, ite(c, a.args[0], b.args[0]))
@@ -435,6 +443,13 @@ def iop(op, ty, a, b):
             return a
         if is_const(a) and cbits(a) == 1:
             return b
+    if op == 'le':
+        # total order: a <= b  ==  !(b < a)   (one canonical comparison per pair)
+        return b_not(iop('lt', ty, b, a))
+    if op == 'lt' and is_const(b) and not signed and ASSUME_LB:
+        lb = ASSUME_LB.get(a.id)
+        if lb is not None and lb >= cbits(b):
+            return FALSE
     if op in ('eq', 'ne') and (is_const(a) or is_const(b)):
         k, x = (a, b) if is_const(a) else (b, a)
         if x.op == 'ite' and _const_leaves(x):
@@ -770,3 +785,97 @@ def size_of_term_dag(t):
         seen.add(x.id)
         st.extend(x.args)
     return len(seen)
+
+
+# ---------------------------------------------------------------------------
+# substitution with re-canonicalisation (rebuilds through the smart constructors)
+
+_F1 = {'fneg', 'fabs'}
+_F2 = {'fadd', 'fmul', 'fdiv', 'frem', 'fmin', 'fmax', 'feq', 'fne', 'flt', 'fle'}
+
+
+def rebuild(op, args):
+    if op in _F1:
+        return f1(op, args[0])
+    if op in _F2:
+        return f2(op, args[0], args[1])
+    if op == 'fma':
+        return fma(args[0], args[1], args[2])
+    if op == 'ite':
+        return ite(args[0], args[1], args[2])
+    if op == 'not':
+        return b_not(args[0])
+    if op == 'and':
+        return b_and(*args)
+    if op == 'or':
+        return b_or(*args)
+    if op == 'xor':
+        return b_xor(args[0], args[1])
+    if op in ('m8', 'm16', 'm32', 'm64'):
+        return mask(args[0], {'m8': 1, 'm16': 2, 'm32': 4, 'm64': 8}[op])
+    if op == 'bits':
+        return mk_bits(list(args))
+    if op == 'b2i':
+        return mk_b2i(args[0], args[1])
+    if op == 'cast':
+        return cast(args[0], args[1], args[2], args[3])
+    if op == 'signbit':
+        return signbit(args[0])
+    if ':' in op:
+        name, ty = op.rsplit(':', 1)
+        if name in ('add', 'sub', 'mul', 'div', 'rem', 'and', 'or', 'xor', 'shl', 'shr', 'eq', 'ne', 'lt', 'le',
+                    'add.ovf', 'sub.ovf', 'mul.ovf', 'min', 'max') and len(args) == 2 and ty[:1] in 'iu' and ty[1:].isdigit():
+            return iop(name, ty, args[0], args[1])
+        if name in ('neg', 'not') and len(args) == 1 and ty[:1] in 'iu' and ty[1:].isdigit():
+            return iun(name, ty, args[0])
+    if op in ('bor', 'band', 'bxor', 'fmin_nanprop', 'fmax_nanprop'):
+        a = sorted(args)
+        return mk(op, *a)
+    return mk(op, *args)
+
+
+def subst(t, mapping, memo=None):
+    """replace atoms (and other leaf terms) per `mapping` {term: term}, re-canonicalising"""
+    if memo is None:
+        memo = {}
+    r = memo.get(t.id)
+    if r is not None:
+        return r
+    m = mapping.get(t)
+    if m is not None:
+        memo[t.id] = m
+        return m
+    if t.op in ('atom', 'c', 'top', 'uninit', 'ptr'):
+        memo[t.id] = t
+        return t
+    changed = False
+    new = []
+    for a in t.args:
+        if isinstance(a, T):
+            b = subst(a, mapping, memo)
+            if b is not a:
+                changed = True
+            new.append(b)
+        else:
+            new.append(a)
+    r = rebuild(t.op, new) if changed else t
+    memo[t.id] = r
+    return r
+
+
+def atoms_of(t):
+    return set(a for a in t.deps if a.op == 'atom')
+
+
+def depth(t, memo=None):
+    if memo is None:
+        memo = {}
+    r = memo.get(t.id)
+    if r is not None:
+        return r
+    d = 0
+    for a in t.args:
+        if isinstance(a, T):
+            d = max(d, 1 + depth(a, memo))
+    memo[t.id] = d
+    return d
